@@ -233,6 +233,36 @@ func c09Scenarios(tier string) []*world.Scenario {
 		}
 		out = append(out, sc)
 	}
+	// the completed request is one the proxy answers with an error of its own AFTER the backends answered (a split MGET whose
+	// merged reply exceeds the size limit while every fragment is within it), followed only by requests the proxy answers
+	// itself: nothing else will ever arrive from a backend for this client, the error must go out at once
+	for _, tail := range [][]string{{}, {"PING"}, {"PING", "PING"}, {"FA"}} {
+		sc := c09Scenario([]string{"M2"}, 3)
+		long := map[string]bool{keysA[0]: true, keysB[0]: true}
+		sc.MaxLen = 64
+		sc.Reply = func(w *world.World, bc *world.BConn, args [][]byte) ([]byte, int) {
+			if len(args) == 2 && long[string(args[1])] && world.Lower(args[0]) == "mget" {
+				return []byte("*1\r\n" + string(world.Bulk(strings.Repeat("L", 40)))), 0
+			}
+			return nil, 0
+		}
+		cs := &sc.Clients[0]
+		cs.Expect[0] = []byte(world.RErrRspLarge)
+		for j, k := range tail {
+			var r Req
+			if k == "PING" {
+				r = PingReq()
+			} else {
+				r = GetReq(keysA[3+j])
+			}
+			cs.Chunks = append(cs.Chunks, world.Chunk{Data: r.Bytes})
+			cs.Reqs = append(cs.Reqs, r.Bytes)
+			cs.Expect = append(cs.Expect, r.Expect)
+		}
+		sc.Family = "open-loop-oversize-merge"
+		sc.Name = fmt.Sprintf("C09/oversize-merged-mget,%s/d3", strings.Join(tail, ","))
+		out = append(out, sc)
+	}
 	// one backend read carries a complete reply followed by the first bytes of the next one (replies cut into two
 	// segments; how many segments a read carries is an enumerated choice)
 	for _, p := range [][]string{{"FA", "FA"}, {"FA", "FA", "FA"}, {"M2", "FA"}, {"FA", "M2"}, {"FB", "FA", "FB", "FA"}} {
